@@ -71,7 +71,11 @@ def encode_struct(m, d, av, perms=None):
             raise Unspecified('instance of the root itself, or not a listed subtype')
         out['.tag'] = tag[0]
     elif (vd.ns, vd.name) != (d.ns, d.name):
-        raise Unspecified('subclass instance in a plain struct position')
+        # an instance of a struct extending d where d is declared: "the definition maintains the list of
+        # fields for serialization" (bv.Struct.validate_type_only) - the declared struct's fields only
+        if not any((a.ns, a.name) == (d.ns, d.name) for a in m.ancestors(vd)):
+            raise Unspecified('instance of an unrelated struct')
+        vd = d
     for f in m.struct_all_fields(vd):
         if f.name in av.fields and visible(m, f, perms):
             v = av.fields[f.name]
